@@ -44,13 +44,20 @@ def compare(chk: Check, case, where: str):
         for order in ("C", "F"):
             for k in case.get("scales", [0]):
                 sc = 2.0 ** k
-                Ain = np.array(A, order=order, copy=True)
+                # column scale lemma: A*diag(2^e) has the minimiser clp_j / 2^e_j and the same residual (exact in binary floating point; a
+                # positive diagonal keeps the sign constraints), and a condition number up to 2^(max e - min e) times that of A
+                ce = case.get("colscale")
+                D = np.array([2.0 ** e for e in ce]) if ce else np.ones(n)
+                As = A * D
+                Ain = np.array(As, order=order, copy=True)
                 yin = y * sc
                 ycall = yin.copy()
                 clp, r = fn(Ain, ycall)
                 chk.evaluations += 1
+                if ce:
+                    clp = np.asarray(clp)[:n] * D
                 # the caller's matrix and data are inputs: an index-independent matrix is reused for every global index
-                if not np.array_equal(Ain, A) or not np.array_equal(ycall, yin):
+                if not np.array_equal(Ain, As) or not np.array_equal(ycall, yin):
                     chk.violation(f"LeastSquares[{fname}]: input modified order={order} n={n}",
                                   f"{where} {fname} order={order}: the call modified its {'matrix' if not np.array_equal(Ain, A) else 'data'} argument ({desc}); a second index using the same matrix is solved with garbage",
                                   {"engine": "c01", "case": case})
@@ -72,7 +79,9 @@ def compare(chk: Check, case, where: str):
                         bad = f"residual {r.tolist()} != data - matrix*clp = {[str(e) for e in exp_res]} (diff {dr:.3g})"
                 if bad:
                     key = f"LeastSquares[{fname}]: scale=2^{k}" if k != 0 else f"LeastSquares[{fname}]: {desc} order={order}"
-                    chk.violation(key, f"{where} {fname} order={order} data*2^{k}: {bad}; {desc}",
+                    if ce:
+                        key = f"LeastSquares[{fname}]: column scales 2^{ce} {desc} order={order}"
+                    chk.violation(key, f"{where} {fname} order={order} data*2^{k} columns*2^{ce}: {bad}; {desc}",
                                   {"engine": "c01", "case": case})
     if case["active"] != list(range(1, n + 1)) or any(v % case["vp"]["den"] for v in case["vp"]["num"]):
         chk.nontriv(json.dumps([case["A"], case["y"]]))
@@ -118,7 +127,8 @@ def run(tier: str, replay=None) -> int:
     chk.assumptions = [
         "float vs exact: |f - p/q| <= 1e-9 * max(1, |clp|, |y|) on instances with condition number <= ~1e4",
         "2^k scaling of the data is exact in binary floating point, so huge/tiny data scales are compared after exact rescaling",
-        "not decided: condition numbers 1e4..1e10 (backward error analysis of LAPACK QR / scipy nnls)",
+        "condition numbers up to ~1e10 are reached by exact column scaling A*diag(2^e) of the integer instances (spread of e up to 33); "
+        "not decided: ill-conditioning that is not a column scaling beyond ~1e4 (backward error analysis of LAPACK QR / scipy nnls)",
         "trusted: TLC, fractions.Fraction for the final division num/den",
     ]
     if replay:
@@ -177,5 +187,17 @@ def run(tier: str, replay=None) -> int:
         c2 = dict(c)
         c2["scales"] = [-300, -60, -20, 20, 300]
         compare(chk, c2, "scaled")
+    # ill-conditioned instances by exact column scaling: condition numbers up to 2^33 ~ 1e10 times that of the integer instance
+    multi = [c for c in allcases if len(c["A"][0]) >= 2]
+    for c in rng.sample(multi, min(scale_sample, len(multi))):
+        n = len(c["A"][0])
+        spread = rng.choice([10, 20, 27, 30, 33])
+        e = [rng.randint(0, spread) for _ in range(n)]
+        e[rng.randrange(n)] = 0
+        e[rng.choice([j for j in range(n) if e[j] != 0] or [0])] = spread
+        off = rng.choice([0, 0, -spread, -spread // 2, -40, 40])
+        c2 = dict(c)
+        c2["colscale"] = [v + off for v in e]
+        compare(chk, c2, "column-scaled")
     dispatch_checks(chk)
     return chk.finish()
